@@ -18,7 +18,7 @@ RULE = ("configurations = serial-number model tags (quick: one per predicate-equ
 ASSUMPTIONS = ["an inverter refuses a read iff it touches a refused register range (address-range semantics of real firmware)",
                "which optional blocks a model offers is derived by the oracle from the tag lists of goodwe.model (data) and the "
                "thresholds stated in the property (15 kW / 25 kW)"]
-MUST = ["firmware_version_variants", "battery_toggle_checked", "configs_run", "keys_equal_checked", "fallback_battery", "fallback_battery2", "fallback_meter_ext2", "fallback_meter_ext",
+MUST = ["served_block_refused_later", "firmware_version_variants", "battery_toggle_checked", "configs_run", "keys_equal_checked", "fallback_battery", "fallback_battery2", "fallback_meter_ext2", "fallback_meter_ext",
         "fallback_mppt", "first_call_failed_second_ok", "presence_checked", "dt_meter_refused", "es_configs", "slow_refusals_keepalive"]
 EXHAUSTIVE = {"quick": False, "thorough": True}
 
@@ -102,6 +102,57 @@ def check_config(cfg, part, port=8899, slow=False):
         part.sample({"config": cfg, "port": port, "calls": [c[0] for c in calls], "keys": [len(c[1]) if c[0] == "ok" else None for c in calls]})
 
 
+REPRESENTATIVE = {"battery": "battery_soc", "battery2": "battery2_soc", "mppt": "pmppt1", "meter_ext": "meter_voltage1", "meter_ext2": "meter_e_total_exp1",
+                  "meter": "meter_active_power"}
+
+
+def refused_later(cfg, part, port, pick):
+    """history: a block the inverter served in the first polls is refused (ILLEGAL DATA ADDRESS) from then on - a firmware update, a meter or battery
+    that was unplugged: the next poll succeeds no later than its second call and every result again has exactly the keys of sensors()"""
+    from .. import models
+    g = env.goodwe()
+    fam = cfg["family"]
+    served = [b for b, rid in REPRESENTATIVE.items() if configs.expected_presence(g, cfg).get(rid)]
+    if not served:
+        return
+    blk = served[pick % len(served)]
+    later = []
+
+    async def refuse_now(inv, sim, loop, res_):
+        sim.refused = list(sim.refused) + [tuple(r) for r in (models.ET_BLOCKS if fam == "ET" else models.DT_BLOCKS)[blk]]
+        for _ in range(3):
+            try:
+                data = await inv.read_runtime_data()
+                later.append(("ok", set(data), {s.id_ for s in inv.sensors()}))
+            except g.exceptions.RequestRejectedException as e:
+                later.append(("rejected", e.message, None))
+            except Exception as e:      # noqa
+                later.append((type(e).__name__, str(e)[:100], None))
+    res = configs.run_config(cfg, ncalls=2, port=port, extra=refuse_now)
+    run = res["run"]
+    part.evaluations += 1
+    case = {"config": cfg, "port": port, "later": pick}
+    tag = f"{fam} {cfg['tag']} rated={cfg['rated']} refused={cfg['refused']} battery={cfg['battery']} fw={cfg.get('fw_versions')} port {port}: block '{blk}' served in 2 polls, then refused"
+    if run.stop or run.error is not None:
+        part.violate(f"C15/{fam}/setup-failed", f"{tag}: {run.stop or repr(run.error)}", case)
+        return
+    if not any(c[0] == "ok" for c in res["calls"]) or REPRESENTATIVE[blk] not in next(c for c in reversed(res["calls"]) if c[0] == "ok")[1]:
+        return          # (the block was not being served in the first place: nothing to learn from this history)
+    if later[0][0] != "ok" and later[1][0] != "ok":
+        part.violate(f"C15/{fam}/not-ok-by-second-call", f"{tag}: outcomes of the polls after that {[c[0] for c in later]}", case)
+    for i, c in enumerate(later):
+        if c[0] == "ok":
+            if c[1] != c[2]:
+                part.violate(f"C15/{fam}/keys-differ-from-sensors", f"{tag}: poll {i + 1} after that returned {len(c[1])} keys but sensors() lists {len(c[2])} ids; "
+                             f"only in result: {sorted(c[1] - c[2])[:4]}, only in sensors(): {sorted(c[2] - c[1])[:4]}", case)
+            elif i == len(later) - 1 and REPRESENTATIVE[blk] in c[1]:
+                part.violate(f"C15/{fam}/refused-block-present/{REPRESENTATIVE[blk]}", f"{tag}: '{REPRESENTATIVE[blk]}' is still in the result of poll {i + 1} after that", case)
+            else:
+                part.count("served_block_refused_later")
+        elif c[0] != "rejected":
+            part.violate(f"C15/{fam}/call-raised/{c[0]}", f"{tag}: poll {i + 1} after that raised {c[0]}: {c[1]}", case)
+
+
 def plan(tier, seed):
     g = env.goodwe()
     n = 16
@@ -127,10 +178,15 @@ def run_shard(spec):
             check_config(cfg, part, 502)
         if cfg["family"] != "ES" and cfg["refused"] and i % 9 == 4:
             check_config(cfg, part, 8899, slow=True)
+        if cfg["family"] == "DT" or (cfg["family"] == "ET" and i % (4 if tier == "quick" else 2) == 1):
+            refused_later(cfg, part, 8899 if i % 3 else 502, i // 4 + env.seed())
     return part
 
 
 def replay(case):
     part = Part()
+    if "later" in case:
+        refused_later(case["config"], part, case["port"], case["later"])
+        return [{"key": v["key"], "msg": v["msg"]} for v in part.violations]
     check_config(case["config"], part, case.get("port", 8899), slow=case.get("slow", False))
     return [{"key": v["key"], "msg": v["msg"]} for v in part.violations]
